@@ -57,7 +57,7 @@ func init() {
 		Level: "model_checking",
 		Rule: "split: every string of the grammar [v]N[.N[.N]][-pre][+meta] with N in {0,1,2,10}, 7 prerelease and 3 metadata shapes (5376 strings) plus 24 near-misses, x explicit prerelease/metadata in {unset,set} x schema in {default, semver, none}, run through nfpm.WithDefaults and compared with the reference grammar; " +
 			"order: for deb, ipk and rpm the version strings decoded from really built packages are compared with ports of dpkg's and rpm's algorithms (dpkg --compare-versions as second opinion) for every (release, prerelease of it) pair over 64 bases x 7 prereleases x release in {unset,1} x metadata in {unset,git}, every pair of the 64 numeric bases, and every pair of epochs in {unset,1,2,10} over versions chosen so that the lower epoch carries the higher version; " +
-			"repeat: 256 version configurations x 5 formats packaged twice from one effective-settings object, both packages must state the same version; non-trivial = version parsed / both packages decoded; distinct = distinct (input, split result) or (pair, comparison)",
+			"verbatim: 12 versions that must not be split x 5 formats, the packaged version string must carry them unchanged; repeat: 256 version configurations x 5 formats packaged twice from one effective-settings object, both packages must state the same version; non-trivial = version parsed / both packages decoded; distinct = distinct (input, split result) or (pair, comparison)",
 		Assumptions: []string{
 			"reference semver grammar model/version.go (documented lenient grammar: optional lowercase v, 1-3 numeric parts without leading zeros, dot separated [0-9A-Za-z-] identifiers)",
 			"DebCompare / RPMVerCmp are ports of deb-version(7) and rpm's rpmvercmp.c; ipk (opkg) uses the Debian algorithm",
@@ -101,6 +101,21 @@ func enumC14(env *engine.Env, yield func(any) bool) {
 						return
 					}
 				}
+			}
+		}
+	}
+	// verbatim: versions that must not be split reach every package unchanged
+	for _, v := range []string{"v1.2.3.4", "1.2.3.4", "2024.01.02", "1.2.x", "abc", "01.2.3", "V1.2.3", "1.2.3-rc_1"} {
+		for _, f := range Formats {
+			if !yield(C14Case{Part: "verbatim", A: VerCfg{Version: v, Schema: ""}, Why: f}) {
+				return
+			}
+		}
+	}
+	for _, v := range []string{"v1.2.3", "1.2.3-rc1+meta.5", "v2", "1.2"} {
+		for _, f := range Formats {
+			if !yield(C14Case{Part: "verbatim", A: VerCfg{Version: v, Schema: "none"}, Why: f}) {
+				return
 			}
 		}
 	}
@@ -225,6 +240,29 @@ func checkC14(env *engine.Env, ci any) engine.Outcome {
 	}
 	t := tree(env)
 	var keys []string
+	if c.Part == "verbatim" {
+		f := c.Why
+		mc := verDoc(c.A)
+		data, err := buildYAML(metaDoc(mc, f, t).YAML(), f)
+		out.Key = fmt.Sprintf("verbatim:%s:%q:%q", f, c.A.Version, c.A.Schema)
+		if err != nil {
+			out.Violations = append(out.Violations, engine.Violation{Sig: "version:verbatim-build-error:" + f, Detail: fmt.Sprintf("format=%s version=%q schema=%q: packaging failed: %v", f, c.A.Version, c.A.Schema, err)})
+			return out
+		}
+		pkg, err := pkgread.Decode(f, data, env.Tools)
+		if err != nil {
+			out.Violations = append(out.Violations, engine.Violation{Sig: "version:undecodable:" + f, Detail: err.Error()})
+			return out
+		}
+		out.Nontrivial = true
+		for k, want := range model.WantVersion(f, mc) {
+			if got, _ := pkg.Field(k); got != want {
+				out.Violations = append(out.Violations, engine.Violation{Sig: "version:verbatim:" + f,
+					Detail: fmt.Sprintf("format=%s version=%q schema=%q: the version is not split (schema none / not a semantic version) and must be used verbatim; %s says %q, expected %q", f, c.A.Version, c.A.Schema, k, got, want)})
+			}
+		}
+		return out
+	}
 	if c.Part == "repeat" {
 		for _, f := range Formats {
 			cfg, err := parseYAML(metaDoc(verDoc(c.A), f, t).YAML(), nil)
